@@ -32,12 +32,13 @@ SP == <<32>>   TAB == <<9>>   NLs == <<10>>   NBSP == <<160>>   EMSP == <<8195>>
 BLK == <<47, 42, 42, 47>>                        \* /**/
 BLKX == <<47, 42, 32, 120, 32, 42, 47>>          \* /* x */
 BLK3 == <<47, 42, 42, 42, 47>>                   \* /***/   (a body that ends in a star)
+BLKS == <<47, 42, 47, 32, 42, 47>>               \* /*/ */  (a body that starts with a slash)
 VT == <<11>>
 LINE == <<47, 47, 32, 121, 10>>                  \* // y NL
 \* the single space is the baseline rendering (Plain), so the small set spends its four slots on the other kinds
 Seps == CASE SepSet = "small" -> {<<>>, IDSP, BLK3, LINE}
-          [] SepSet = "medium" -> {<<>>, SP, TAB, NLs, VT, NBSP, BLK, BLKX, LINE}
-          [] OTHER -> {<<>>, SP, TAB, NLs, VT, NBSP, EMSP, IDSP, BLK, BLKX, BLK3, LINE, SP \o BLK, BLK \o SP}
+          [] SepSet = "medium" -> {<<>>, SP, TAB, NLs, VT, NBSP, BLK, BLKX, BLKS, LINE}
+          [] OTHER -> {<<>>, SP, TAB, NLs, VT, NBSP, EMSP, IDSP, BLK, BLKX, BLK3, BLKS, LINE, SP \o BLK, BLK \o SP}
 
 Init == toks = <<>> /\ gaps = <<>> /\ tail = <<>>
 Next == /\ Len(toks) < MaxLen
